@@ -3,14 +3,9 @@ use crate::linalg::Vector;
 // Given the edges of some intervals, return the centers of the intervals. If `edges` is length n,
 // then the resulting vector will be length n - 1.
 pub fn hist_bin_centers(edges: &[f64]) -> Vector {
-    let diff = Vector::from(edges).diff();
-
-    diff.into_iter()
-        .scan((edges[0] + edges[1]) / 2., |acc, x| {
-            let temp = *acc;
-            *acc += x;
-            Some(temp)
-        })
+    assert!(edges.len() >= 2, "need at least two edges");
+    (1..edges.len())
+        .map(|i| (edges[i - 1] + edges[i]) / 2.)
         .collect()
 }
 
